@@ -33,10 +33,10 @@ func runC05(c *core.Ctx) {
 	c.ExhaustNote = "all token sequences of <= " + strconv.Itoa(maxLen) + " tokens over " + strconv.Itoa(len(queryClasses)) + " token classes, viable-prefix pruned"
 
 	type docCase struct {
-		toks     []gen.Tok
-		expect   string
-		r0, r1   string
-		mut      string
+		toks   []gen.Tok
+		expect string
+		r0, r1 string
+		mut    string
 	}
 	feats := map[string]int{}
 	cases := make([]docCase, nDocs)
@@ -100,6 +100,19 @@ func runC05(c *core.Ctx) {
 		c.CheckCase(w, "pq", thm, []byte("1"), []byte("0"), []byte(wide[i]))
 	})
 	c.Count("wide_and_deep_documents", int64(len(wide)))
+	// constant and non-constant positions with every shape of value; the small-scope documents (light)
+	// and the scale family as texts to parse
+	extra := ConstSitesQuery()
+	for _, k := range SmallScopeLight() {
+		extra = append(extra, k.Query)
+	}
+	for _, k := range ScaleDocsUpTo(300, 4097) {
+		extra = append(extra, k.Query)
+	}
+	c.Pool.ParFor(len(extra), func(w, i int) {
+		c.CheckCase(w, "pq", thm, []byte("1"), []byte("0"), []byte(extra[i]))
+	})
+	c.Count("constant_sites_small_scope_and_scale_documents", int64(len(extra)))
 	c.Evals += int64(nDocs)*5 + int64(len(wide))
 	c.Programs = int64(nDocs)
 	c.Count("generated_documents", int64(nDocs))
